@@ -874,6 +874,7 @@ mutual
         tick t
         let name ← fileName f t fn
         if (← findHandle name).isSome then rtErr t .alreadyOpen
+        else if ((name.reverse.takeWhile (· != '/')).length > 255) then rtErr t .openFailed   -- NAME_MAX
         else
           let node ← fileNode name
           let okParent ← parentExists name
